@@ -431,7 +431,10 @@ func (gen *generator) irIFunc(new *ir.IFunc, old *ast.IndirectSymbolDef) error {
 	}
 	// Content type: handled in newGlobalEntity.
 	// Resolver.
-	resolver, err := gen.irIndirectSymbol(new.Typ, old.IndirectSymbol())
+	// The resolver is a function that returns a pointer to the content type.
+	resolverType := types.NewPointer(types.NewFunc(new.Typ))
+	resolverType.AddrSpace = new.Typ.AddrSpace
+	resolver, err := gen.irIndirectSymbol(resolverType, old.IndirectSymbol())
 	if err != nil {
 		return errors.WithStack(err)
 	}
